@@ -121,7 +121,8 @@ def spell(rng, kind, names=NAMES, simple=False):
         return rng.choice([b"1", b"-2", b"+3", b"0", b"007", b"42", b"0x1F", b"0XaL", b"5L", b"-6LL",
                            b"2147483647", b"2147483648", b"-2147483648", b"-2147483649", b"017"])
     if kind == "FLT":
-        return rng.choice([b"1.5", b"-0.25", b".5", b"5.", b"1e3", b"2.5E-2", b"+1.0", b"-.5e+1", b"1e0"])
+        return rng.choice([b"1.5", b"-0.25", b".5", b"5.", b"1e3", b"2.5E-2", b"+1.0", b"-.5e+1", b"1e0", b"1e-310", b"4e-400",
+                           b"2.5e-320", b"1.7976931348623157e308", b"0.1"])
     if kind == "BOOL":
         return rng.choice([b"true", b"false", b"TRUE", b"False", b"tRuE"])
     if kind == "STR":
